@@ -4,7 +4,7 @@
    blockchain.rs / block.rs that touch them) is model/Mempool.v.
 
    Quantification: every sequence [ops] of
-     OAddTx        transaction arrival (valid, conflicting, duplicate, invalid, any inputs),
+     OAddTx        transaction arrival (valid, conflicting, duplicate, invalid, any inputs, any type),
      OAddGT        golden ticket arrival,
      OBundle       local bundle (any outcome of can_bundle_block's environment conditions, any
                    work requirement, staking transaction or none, anything Block::create adds),
@@ -13,59 +13,59 @@
      OBlockFailed  add_block_failure of a peer's or the node's own block,
    from any genesis ledger [g].
 
-   THE PINNED CODE VIOLATES THE PROPERTY.  utxo_map is released only by a successful bundle;
-   the three other ways a transaction leaves the pool keep its reservations, Block::create
-   drains the pool before it can fail, and add_block_transactions_back re-inserts around the
-   reservation index and the work cache.  Full statements (false, see the _refuted theorems):
+   History.  On the originally pinned tree I1, I3, I4 and I5 were all violated (reservations
+   were released by a successful bundle only; add_block_transactions_back re-inserted around
+   the index and the cache; a failed Block::create left index and cache behind).  The fixes
+   0fedb86, 2cf0b5a, cafb4ab, ff837ac repaired that; the model follows the repaired code and
+   I1, I2, I3, I5 are now proved for EVERY operation sequence (the histories that used to
+   break them are the Example C14_regression_examples).
 
-     I1  forall g ops s, run (init g) ops = Ok s -> I1 (pl s)
-     I3  forall g ops s, run (init g) ops = Ok s -> I3 (pl s)
+   What is still violated: I4.  Block::create drains the pool before its double-spend
+   detection can fail, so a bundle can return no block and lose every pooled transaction:
+
      I4  forall s env wn st ex p' r, bundle_block (ledger s) (pl s) env wn st ex = Ok (p', r) ->
-           match r with None => p' = pl s | Some b => txs p' = [] /\ ... end
-     I5  forall g ops s, run (init g) ops = Ok s -> I5 (pl s)
+           match r with None => p' = pl s | Some b => txs p' = [] /\ ... end       (FALSE)
 
-   Each is proved for every run outside a specific, decidable class of steps:
-     Known_C14_invalidated   a block addition invalidates a pooled transaction that is not in
-                             the block (the block spends one of its inputs)
-     Known_C14_confirmed     a block (on or off the longest chain) contains a pooled transaction
-     Known_C14_failed_create Block::create fails after draining the pool (reachable through a
-                             re-insertion, Known_C14_readded, followed by a conflicting
-                             arrival; on the originally pinned tree also with one transaction
-                             naming the same input twice, a route closed by fix 0fedb86 of
-                             Transaction::validate)
-     Known_C14_readded       a failed block of the node's own making puts transactions back
-   and I2 and the remaining facts hold unconditionally. *)
-From Saito Require Import Base Mempool MempoolProofs MempoolRepair MempoolRepairProofs.
+   Known_C14_failed_create is that step class; it is entered only when what Block::create adds
+   itself (a rebroadcast at the window edge) spends an output that a pooled transaction
+   spends (C14_I4_create_succeeds), and it leaves an empty, consistent pool
+   (C14_I4_failed_create_leaves_empty_pool). *)
+From Saito Require Import Base Mempool MempoolProofs.
 
-Definition Known_C14_invalidated := ev_invalidated.
-Definition Known_C14_confirmed := ev_confirmed.
 Definition Known_C14_failed_create := ev_failed_create.
-Definition Known_C14_readded := ev_readded.
-(* modelling side condition, not a defect: signatures bind inputs (a transaction put back
-   under an already pooled signature has the pooled one's inputs) *)
-Definition sig_collision := ev_sig_collision.
 
-(* ---------------- I1: no two pooled transactions spend the same output ---------------- *)
+(* ---------------- I1, I3, I5: after every operation sequence ---------------- *)
 
-Theorem C14_I1_no_double_spend_in_pool_refuted :
-  exists g ops s, run (init g) ops = Ok s /\
-    known_in Known_C14_readded (init g) ops = true /\ ~ I1 (pl s).
-Proof. exact I1_refuted. Qed.
+(* signatures are unique keys; every input of a pooled transaction is reserved;
+   I1 no two pooled transactions spend the same value-carrying output;
+   I3 every reservation belongs to a pooled transaction;
+   I5 the cached routing work is the (u64) sum over the pooled transactions *)
+Theorem C14_all_invariants : forall g ops s,
+  run (init g) ops = Ok s ->
+  UniqueIds (pl s) /\ Reserved (pl s) /\ I1 (pl s) /\ I3 (pl s) /\ I5 (pl s).
+Proof. exact all_invariants. Qed.
 
 Theorem C14_I1_no_double_spend_in_pool : forall g ops s,
-  known_in Known_C14_readded (init g) ops = false ->
   run (init g) ops = Ok s -> I1 (pl s).
 Proof. exact no_double_spend_in_pool. Qed.
 
-(* on the same runs every input of a pooled transaction is reserved; signatures are unique
-   keys on every run *)
-Theorem C14_pooled_inputs_reserved : forall g ops s,
-  known_in Known_C14_readded (init g) ops = false ->
-  run (init g) ops = Ok s -> UniqueIds (pl s) /\ Reserved (pl s).
-Proof. exact pooled_inputs_reserved. Qed.
+Theorem C14_I3_no_stale_reservation : forall g ops s,
+  run (init g) ops = Ok s -> I3 (pl s).
+Proof. exact no_stale_reservation. Qed.
 
-Theorem C14_ids_unique : forall g ops s, run (init g) ops = Ok s -> UniqueIds (pl s).
-Proof. exact ids_unique. Qed.
+Theorem C14_I5_routing_work_cache : forall g ops s,
+  run (init g) ops = Ok s -> I5 (pl s).
+Proof. exact routing_work_cache. Qed.
+
+(* I3, user-visible: after every operation sequence an output that no pooled transaction
+   names as an input is accepted when a fresh valid transaction spends it *)
+Theorem C14_I3_unspent_always_spendable : forall g ops s t,
+  run (init g) ops = Ok s ->
+  tx_validate (ledger s) t = true -> t_type t <> TGoldenTicket -> producer_only t = false ->
+  has_tx (t_id t) (txs (pl s)) = false ->
+  (forall k u, In k (vkeys t) -> In u (txs (pl s)) -> ~ In k (in_keys u)) ->
+  exists p', add_transaction_if_validates (ledger s) (pl s) t = Ok p' /\ In t (txs p').
+Proof. exact unspent_always_spendable. Qed.
 
 (* ---------------- I2: pooled transactions stay valid against the ledger ---------------- *)
 
@@ -75,85 +75,32 @@ Theorem C14_I2_pooled_valid_after_block : forall s l b x,
 Proof. exact pooled_valid_after_block. Qed.
 
 (* at all times, when arrivals are of the types whose validate() consults the utxoset
-   (Fee / SPV / BlockStake transactions with value inputs are validated elsewhere) *)
+   (a BlockStake transaction with value inputs is validated by is_slip_unlocked instead) *)
 Theorem C14_I2_pooled_valid_always : forall g ops s,
   Forall op_consults ops -> run (init g) ops = Ok s -> I2 (ledger s) (pl s).
 Proof. exact pooled_valid_always. Qed.
 
-(* ---------------- I3: no stale reservation; unspent outputs stay spendable ---------------- *)
-
-Theorem C14_I3_no_stale_reservation_refuted_invalidated :
-  exists g ops s, run (init g) ops = Ok s /\
-    known_in Known_C14_invalidated (init g) ops = true /\ ~ I3 (pl s).
-Proof. exact I3_refuted_invalidated. Qed.
-
-Theorem C14_I3_no_stale_reservation_refuted_confirmed :
-  exists g ops s, run (init g) ops = Ok s /\
-    known_in Known_C14_confirmed (init g) ops = true /\ ~ I3 (pl s).
-Proof. exact I3_refuted_confirmed. Qed.
-
-Theorem C14_I3_no_stale_reservation_refuted_failed_create :
-  exists g ops s, run (init g) ops = Ok s /\
-    known_in Known_C14_failed_create (init g) ops = true /\ ~ I3 (pl s).
-Proof. exact I3_refuted_failed_create. Qed.
-
-(* the user-visible failure: a spendable output that no pooled transaction names, and a
-   fresh valid transaction spending it that the pool silently drops *)
-Theorem C14_I3_funds_locked_refuted_invalidated :
-  exists g ops s t, run (init g) ops = Ok s /\ funds_locked s t.
-Proof. exact funds_locked_invalidated. Qed.
-Theorem C14_I3_funds_locked_refuted_confirmed_offchain :
-  exists g ops s t, run (init g) ops = Ok s /\ funds_locked s t.
-Proof. exact funds_locked_confirmed_offchain. Qed.
-Theorem C14_I3_funds_locked_refuted_confirmed_reorg :
-  exists g ops s t, run (init g) ops = Ok s /\ funds_locked s t.
-Proof. exact funds_locked_confirmed_reorg. Qed.
-Theorem C14_I3_funds_locked_refuted_failed_create :
-  exists g ops s t, run (init g) ops = Ok s /\ funds_locked s t.
-Proof. exact funds_locked_failed_create. Qed.
-
-Theorem C14_I3_no_stale_reservation : forall g ops s,
-  known_in (fun s o => Known_C14_invalidated s o || Known_C14_confirmed s o
-                       || Known_C14_failed_create s o || sig_collision s o) (init g) ops = false ->
-  run (init g) ops = Ok s -> I3 (pl s).
-Proof. exact no_stale_reservation. Qed.
-
-(* wherever I3 holds: an output that no pooled transaction names as an input is accepted
-   when a fresh valid transaction spends it *)
-Theorem C14_I3_fresh_spend_accepted : forall l p t,
-  I3 p ->
-  tx_validate l t = true -> t_type t <> TGoldenTicket -> producer_only t = false ->
-  has_tx (t_id t) (txs p) = false ->
-  (forall k u, In k (vkeys t) -> In u (txs p) -> ~ In k (in_keys u)) ->
-  exists p', add_transaction_if_validates l p t = Ok p' /\ In t (txs p').
-Proof. exact fresh_spend_pooled. Qed.
+Theorem C14_I5_exact_after_block : forall s l b x,
+  step s (OBlockAdded l b) = Ok x -> I5 (pl (fst x)).
+Proof. exact routing_work_exact_after_block. Qed.
 
 (* ---------------- I4: bundling is atomic ---------------- *)
 
+(* still refuted: a reachable pool of two well-formed transactions, of which one spends
+   output 1; Block::create adds a rebroadcast of output 1, fails after the drain, and
+   both transactions are gone *)
 Theorem C14_I4_bundle_atomic_refuted :
   exists g ops s env wn st ex p',
     run (init g) ops = Ok s /\
-    bundle_block (ledger s) (pl s) env wn st ex = Ok (p', None) /\ p' <> pl s /\
+    forallb (fun t => negb (has_dup (vkeys t))) (txs (pl s)) = true /\
+    map t_id (txs (pl s)) = [13; 10] /\
+    bundle_block (ledger s) (pl s) env wn st ex = Ok (p', None) /\ txs p' = [] /\
     Known_C14_failed_create s (OBundle env wn st ex) = true.
 Proof. exact I4_refuted. Qed.
 
-(* the same without any ill-formed transaction (every pooled transaction names each input
-   once): the double spend let in by a re-insertion makes the next Block::create fail *)
-Theorem C14_I4_bundle_atomic_refuted_after_readd :
-  exists g ops s env wn st ex p',
-    run (init g) ops = Ok s /\
-    forallb (fun t => negb (has_dup (vkeys t))) (txs (pl s)) = true /\
-    bundle_block (ledger s) (pl s) env wn st ex = Ok (p', None) /\ p' <> pl s /\
-    Known_C14_failed_create s (OBundle env wn st ex) = true.
-Proof. exact I4_refuted_after_readd. Qed.
-
-Theorem C14_I3_funds_locked_refuted_after_readd :
-  exists g ops s t, run (init g) ops = Ok s /\ funds_locked s t.
-Proof. exact funds_locked_after_readd. Qed.
-
-(* in any pool state: a block without a double spend that contains every pooled transaction,
-   the pool emptied, no reservation left for any input of the block, cache reset -- or the
-   pool untouched *)
+(* outside the class, in any pool state: a block without a double spend that contains every
+   pooled transaction, the pool emptied, no reservation left for any input of the block,
+   cache reset -- or the pool untouched *)
 Theorem C14_I4_bundle_atomic : forall l p env wn st ex p' r,
   bundle_block l p env wn st ex = Ok (p', r) ->
   Known_C14_failed_create (mkS p l) (OBundle env wn st ex) = false ->
@@ -166,9 +113,16 @@ Theorem C14_I4_bundle_atomic : forall l p env wn st ex p' r,
   end.
 Proof. exact bundle_atomic. Qed.
 
-(* the class is entered only through a double spend inside the pool: with I1 (every run
-   outside Known_C14_readded), no pooled transaction naming an input twice, and no clash
-   with what Block::create adds itself, Block::create succeeds *)
+(* inside the class the drained transactions are lost but nothing stale is left *)
+Theorem C14_I4_failed_create_leaves_empty_pool : forall l p env wn st ex p' r,
+  bundle_block l p env wn st ex = Ok (p', r) ->
+  Known_C14_failed_create (mkS p l) (OBundle env wn st ex) = true ->
+  r = None /\ txs p' = [] /\ umap p' = [] /\ work p' = 0.
+Proof. exact failed_create_leaves_empty_pool. Qed.
+
+(* the class is entered only through what Block::create adds: on a reachable pool (Reserved,
+   I1) whose transactions name each input once (Transaction::validate since 0fedb86), with
+   additions that do not spend what the pool spends, Block::create succeeds *)
 Theorem C14_I4_create_succeeds : forall l p env wn st ex,
   Reserved p -> I1 p ->
   (forall t, In t (txs p) -> NoDup (vkeys t)) ->
@@ -178,51 +132,6 @@ Theorem C14_I4_create_succeeds : forall l p env wn st ex,
   (forall k s, In k (spent_keys ex) -> st = Some s -> ~ In k (vkeys s)) ->
   create_fails l p env wn st ex = false.
 Proof. exact create_succeeds. Qed.
-
-(* ---------------- I5: cached routing work = sum over the pool (u64) ---------------- *)
-
-Theorem C14_I5_routing_work_cache_refuted_failed_create :
-  exists g ops s, run (init g) ops = Ok s /\
-    known_in Known_C14_failed_create (init g) ops = true /\ ~ I5 (pl s).
-Proof. exact I5_refuted_failed_create. Qed.
-
-Theorem C14_I5_routing_work_cache_refuted_readded :
-  exists g ops s, run (init g) ops = Ok s /\
-    known_in Known_C14_readded (init g) ops = true /\ ~ I5 (pl s).
-Proof. exact I5_refuted_readded. Qed.
-
-Theorem C14_I5_routing_work_cache : forall g ops s,
-  known_in (fun s o => Known_C14_failed_create s o || Known_C14_readded s o) (init g) ops = false ->
-  run (init g) ops = Ok s -> I5 (pl s).
-Proof. exact routing_work_cache. Qed.
-
-Theorem C14_I5_exact_after_block : forall s l b x,
-  step s (OBlockAdded l b) = Ok x -> I5 (pl (fst x)).
-Proof. exact routing_work_exact_after_block. Qed.
-
-(* ---------------- repair candidate ----------------
-   model/MempoolRepair.v is NOT a model of /repo: it is Mempool.v with the three local
-   changes of the candidate patch (delete_transactions rebuilds utxo_map from the remaining
-   transactions; add_block_transactions_back re-inserts through add_transaction; a failed
-   Block::create leaves index and cache empty).  With them I1, I3, I5 and the auxiliary
-   invariants hold after EVERY operation sequence, no class excluded, and a bundle that
-   yields no block leaves a consistent pool.  (Differential run of this model against the
-   patched code: see registry/C14.json, "repair".) *)
-
-Theorem C14_repair_all_invariants : forall g ops s,
-  run_r (init g) ops = Ok s ->
-  UniqueIds (pl s) /\ Reserved (pl s) /\ I1 (pl s) /\ I3 (pl s) /\ I5 (pl s).
-Proof. exact repair_all_invariants. Qed.
-
-Theorem C14_repair_bundle : forall g ops s env wn st ex p' r,
-  run_r (init g) ops = Ok s ->
-  bundle_block_r (ledger s) (pl s) env wn st ex = Ok (p', r) ->
-  InvR p' /\
-  match r with
-  | Some b => txs p' = [] /\ dup_spend b = false /\ (forall t, In t (txs (pl s)) -> In t b)
-  | None => p' = pl s \/ create_fails (ledger s) (pl s) env wn st ex = true
-  end.
-Proof. exact repair_bundle. Qed.
 
 (* ---------------- totality ---------------- *)
 
@@ -240,46 +149,38 @@ Proof. exact panic_only_gt. Qed.
 Theorem C14_panic_reachable : exists g t, step (init g) (OAddTx t) = Panic SITE_GT_IN_TXPOOL.
 Proof. exact panic_reachable. Qed.
 
-(* ---------------- non-vacuity ---------------- *)
+(* ---------------- non-vacuity, regression ---------------- *)
 
-(* a run outside every class: two arrivals of which one conflicts, a duplicate, a golden
-   ticket, a successful bundle, the bundled block added, a new arrival, an unrelated peer
-   block, a failed peer block; it ends with one pooled transaction, one reservation, and the
-   cache equal to its work *)
-Example C14_example_clean_run :
-  exists s, run (init wG) ops_clean = Ok s /\
-    known_in (fun s o => Known_C14_invalidated s o || Known_C14_confirmed s o
-                         || Known_C14_failed_create s o || Known_C14_readded s o
-                         || sig_collision s o) (init wG) ops_clean = false /\
-    map t_id (txs (pl s)) = [15] /\ umap (pl s) = [3] /\ work (pl s) = 40.
-Proof. exact clean_example. Qed.
+(* the three histories that broke the pool before the fixes, each followed by a spend of the
+   output that used to stay locked: the pool now ends with exactly that transaction (or, for
+   the re-insertion, with the original and the conflicting arrival rejected) *)
+Example C14_regression_examples :
+  (exists s, run (init wG) ops_readd = Ok s /\
+             map t_id (txs (pl s)) = [10] /\ umap (pl s) = [1] /\ work (pl s) = 50) /\
+  (exists s, run (init wG) ops_invalidated = Ok s /\
+             map t_id (txs (pl s)) = [13] /\ umap (pl s) = [2]) /\
+  (exists s, run (init wG) ops_confirmed_offchain = Ok s /\
+             map t_id (txs (pl s)) = [11] /\ umap (pl s) = [1]).
+Proof. exact regression_examples. Qed.
 
-Print Assumptions C14_I1_no_double_spend_in_pool_refuted.
+Example C14_example_life_cycle :
+  exists s, run (init wG) ops_life = Ok s /\
+    known_in Known_C14_failed_create (init wG) ops_life = false /\
+    map t_id (txs (pl s)) = [18; 15] /\ umap (pl s) = [4; 3] /\ work (pl s) = 47.
+Proof. exact life_example. Qed.
+
+Print Assumptions C14_all_invariants.
 Print Assumptions C14_I1_no_double_spend_in_pool.
-Print Assumptions C14_pooled_inputs_reserved.
-Print Assumptions C14_ids_unique.
+Print Assumptions C14_I3_no_stale_reservation.
+Print Assumptions C14_I5_routing_work_cache.
+Print Assumptions C14_I3_unspent_always_spendable.
 Print Assumptions C14_I2_pooled_valid_after_block.
 Print Assumptions C14_I2_pooled_valid_always.
-Print Assumptions C14_I3_no_stale_reservation_refuted_invalidated.
-Print Assumptions C14_I3_no_stale_reservation_refuted_confirmed.
-Print Assumptions C14_I3_no_stale_reservation_refuted_failed_create.
-Print Assumptions C14_I3_funds_locked_refuted_invalidated.
-Print Assumptions C14_I3_funds_locked_refuted_confirmed_offchain.
-Print Assumptions C14_I3_funds_locked_refuted_confirmed_reorg.
-Print Assumptions C14_I3_funds_locked_refuted_failed_create.
-Print Assumptions C14_I3_no_stale_reservation.
-Print Assumptions C14_I3_fresh_spend_accepted.
-Print Assumptions C14_I4_bundle_atomic_refuted.
-Print Assumptions C14_I4_bundle_atomic_refuted_after_readd.
-Print Assumptions C14_I3_funds_locked_refuted_after_readd.
-Print Assumptions C14_I4_bundle_atomic.
-Print Assumptions C14_I4_create_succeeds.
-Print Assumptions C14_I5_routing_work_cache_refuted_failed_create.
-Print Assumptions C14_I5_routing_work_cache_refuted_readded.
-Print Assumptions C14_I5_routing_work_cache.
 Print Assumptions C14_I5_exact_after_block.
-Print Assumptions C14_repair_all_invariants.
-Print Assumptions C14_repair_bundle.
+Print Assumptions C14_I4_bundle_atomic_refuted.
+Print Assumptions C14_I4_bundle_atomic.
+Print Assumptions C14_I4_failed_create_leaves_empty_pool.
+Print Assumptions C14_I4_create_succeeds.
 Print Assumptions C14_no_panic.
 Print Assumptions C14_panic_only_gt.
 Print Assumptions C14_panic_reachable.
